@@ -417,7 +417,7 @@ func TestC12Isolated(t *testing.T) {
 	}
 	nHostile := len(cases)
 	// (b) file system, mmap and plain reads, reader and writer
-	budget := vlib.Scale(1800, 12000)
+	budget := vlib.Scale(1400, 12000)
 	var fsCases []RejectCase
 	for wi, w := range ws {
 		for li, layout := range []string{"new", "old", "two"} {
